@@ -8,7 +8,8 @@ RULE = ("combining frame: exhaustive over all key sequences of length <= 5 (quic
         "sequences combine/compact with capacities {1,2,4,8,16}, scratch {1,2,3,8}, up to 60 rows, Zipf-like keys; "
         "observed after every op: rows (sorted), Len, Cap, threshold and every occupied slot (index, key, value) of the hash table; combiner: chunk {1,2,4,8}, spill target 1..6, up to 8 "
         "Combine calls, Reader drained with random destination sizes, spill directories counted; plus combiners fed 200..1000 "
-        "rows over 140..500 keys with spill targets 130..1000, so that spilled runs exceed the 128-row merge buffers; "
+        "rows over 140..500 keys with spill targets 130..1000, so that spilled runs exceed the 128-row merge buffers; the combiner "
+        "over int16/uint16/int32/uint32/int/uint64/string/int8/uint8 keys (typed images of the keys, spread over all bytes); "
         "non-trivial = a key occurs twice or the table grows")
 TRUST = ["sort.Sort sorts given Frame.Less/Swap (C11)", "sliceio.Spiller stores and returns the frames it is given (C07 codec)"]
 ASSUMPTIONS = ["the combine function is commutative and associative for the spill/merge laws (the harness uses +); the hash "
@@ -70,8 +71,21 @@ def gen_big(r, n):
 _gen_small = gen
 
 
+def gen_typed(r, n):
+    """the combiner over other key types (spilled and merged through the typed frame operations)"""
+    for i in range(n):
+        kind = ["i16", "u16", "i32", "u32", "int", "u64", "str", "i8", "u8"][i % 9]
+        ops = []
+        for _ in range(r.rng(1, 6)):
+            rows = ["%d:%d" % (min(r.below(60), r.below(90)), r.rng(0, 30)) for _ in range(r.rng(0, 40))]
+            ops.append("combine " + " ".join(rows))
+        ops.append("reader DEST " + " ".join(str(r.rng(1, 9)) for _ in range(r.rng(1, 3))))
+        yield "CBT %s %d %d ; %s" % (kind, r.choice([1, 2, 8, 128]), r.choice([1, 3, 6, 20, 1000]), " ; ".join(ops))
+
+
 def gen(r, tier):
     yield from _gen_small(r, tier)
+    yield from gen_typed(r, 180 if tier == "quick" else 4000)
     yield from gen_big(r, 60 if tier == "quick" else 1500)
 
 
